@@ -24,6 +24,7 @@ CONSTANTS TypeSet,     \* types a face may be given in direct mode (Types, possi
           OvSet,       \* uniform mode: per-face override ("none" or a type)
           MaxTh,       \* thicknesses 1..MaxTh
           ThickMode,   \* direct mode: "one" / "few": one / two fixed thickness vectors, "all": every vector in 1..MaxTh
+          Scope,       \* direct mode: "all" type assignments or only "near"-legal ones (see InScope)
           NX, NY, NZ,  \* volume cell counts (NX, NY, NZ > 2 * MaxTh)
           Variant      \* "code" or a deliberately wrong variant (negative instance)
 
@@ -42,7 +43,9 @@ VARIABLES inp,     \* input, fixed at Init: [mode, base, ov, thick]
           wrap     \* axis -> BOOLEAN
 vars == << inp, pc, cfg, tabs, objs, slices, wrap >>
 
-Init == /\ inp \in  [ mode : {"direct"},  base : {"pml"},  ov : [ Faces -> TypeSet ], thick : ThickVecs ]
+\* Scope "all": every assignment; "near": the properly paired ones plus those with exactly one one-sided axis
+InScope(t) == Scope = "all" \/ Cardinality({ a \in Axes : ~Paired(t, a) }) <= 1
+Init == /\ inp \in  [ mode : {"direct"},  base : {"pml"},  ov : { t \in [ Faces -> TypeSet ] : InScope(t) }, thick : ThickVecs ]
                     \cup
                     [ mode : {"uniform"}, base : BaseSet, ov : [ Faces -> OvSet ], thick : { [ f \in Faces |-> t ] : t \in 1..MaxTh } ]
         /\ pc = "configure"
@@ -133,4 +136,9 @@ CornerExact == Done => \A f, g \in Faces : Perp(f, g) =>
 \* both faces or on neither - the only configurations that make physical sense) that is "iff the axis is periodic"
 WrapIffPeriodic == Done => \A a \in Axes : /\ wrap[a] <=> (Wraps(ET(MinFace(a))) \/ Wraps(ET(MaxFace(a))))
                                            /\ Paired(ETs, a) => (wrap[a] <=> (Wraps(ET(MinFace(a))) /\ Wraps(ET(MaxFace(a)))))
+\* get_inside_boundary_slice (code-shaped InsideIv, one extra cell of margin) never contains a PML cell
+InsideAvoidsPml == Done => \A a \in Axes :
+    LET ths == [ f \in Faces |-> objs[f].th ] IN
+    CellsOf(InsideIv(ETs, ths, a, Dims[a])) \cap
+       UNION { IF ET(f) = "pml" THEN CellsOf(slices[f][a]) ELSE {} : f \in FacesOf(a) } = {}
 =========================================================================
